@@ -511,7 +511,7 @@ def replay(path):
     """re-executes one recorded case without any explorer"""
     rec = json.load(open(path))
     root, mod = setup_workdir("replay")
-    res = run_capy(os.path.join(root, "job"), rec["files"], mod, env_extra={"CASE": "0"})
+    res = run_capy(os.path.join(root, "job"), rec["files"], mod, main=(rec.get("meta") or {}).get("main", "main.capy"), env_extra={"CASE": "0"})
     print(json.dumps(res.summary(), indent=1))
     if rec.get("dispatch"):
         from . import dispatch
